@@ -118,6 +118,8 @@ package diff
 //@   modifies *
 //@   ensures [C12,C13] resultOrError: (res2 && res4 == nil) ==> usableDiff(res3)
 //@   ensures [C13] stops: res2 == (exists i int :: {da.errors[i]} 0 <= i && i < len(da.errors) && dfStopper(da, da.errors[i]))
+//@   loop 1:
+//@     invariant len: len(da.errors) == pre(len(da.errors)) + rangeindex + 1
 //@   ensures [C13] fatalerr: (exists i int :: {da.errors[i]} 0 <= i && i < len(da.errors) && dfFatal(da.errors[i])) ==> (res4 != nil
 //@         || (exists j int :: {da.errors[j]} 0 <= j && j < len(da.errors) && dfFatal(da.errors[j]) && dyntype(da.errors[j], *parser.FileProcessingError) && unwrap(da.errors[j], *parser.FileProcessingError).err == nil))
 
